@@ -92,6 +92,25 @@ class Store:
         self.zero_at = {}        # object -> (text, loc) of the member's own decrement that reached zero
         self.env_deleted = set() # objects destroyed by the other owner (its release was the last one)
         self.dec_last = set()    # dec_reference() call nodes that were the last decrement right after an injected release
+        self.owned = {}          # handle name -> object that holds this handle as a member (a list node's `next`)
+        self.dead_handles = set()  # handles whose owning object has been destroyed: their storage is gone
+
+    def object_destroyed(self, o):
+        """the pointee's destructor runs: the handles it holds as members are released, as ~CountingPtr would (the member
+        honours the result of its decrement), and their storage dies with the object"""
+        for h, owner in list(self.owned.items()):
+            if owner != o or h not in self.alive_handles:
+                continue
+            self.alive_handles.discard(h)
+            self.dead_handles.add(h)
+            t = self.h.get(h)
+            if t in self.count and t != o:
+                self.count[t] -= 1
+                if self.count[t] < 0:
+                    raise Bad("underflow", "reference count of %s drops below zero when the handle held by %s is released" % (t, o))
+                if self.count[t] == 0:
+                    self.deleted[t] = self.deleted.get(t, 0) + 1
+                    self.object_destroyed(t)
 
     def env_step(self, where, site):
         """the environment's step.  An owner outside the member may drop or copy ITS handle at any time; when its decrement
@@ -108,6 +127,7 @@ class Store:
             if self.count[o] == 0:
                 self.deleted[o] = self.deleted.get(o, 0) + 1
                 self.env_deleted.add(o)
+                self.object_destroyed(o)
             self.inj_done = "another owner of %s releases its reference %s" % (o, where)
         else:
             self.count[o] += 1
@@ -220,6 +240,9 @@ class Interp:
 
     def load(self, lv, fr, n):
         if lv[0] == "ptr":
+            if lv[1] in self.st.dead_handles:
+                raise Bad("use-after-release", "the argument handle is read after the release of the old object, which owns that "
+                          "handle and has just been destroyed (h = h->next)")
             return self.st.h[lv[1]]
         if lv[0] == "var":
             v = lv[2].env.get(lv[1])
@@ -245,7 +268,11 @@ class Interp:
         if k == "This":
             return ("addr", fr.this)
         if k == "MemberExpr" and n["member"] == PTR_FIELD[0]:
-            return st.h[self.handle_of_base(n, fr)]
+            hn = self.handle_of_base(n, fr)
+            if hn in st.dead_handles:
+                raise Bad("use-after-release", "the argument handle is read after the release of the old object, which owns that "
+                          "handle and has just been destroyed (h = h->next)")
+            return st.h[hn]
         if k == "MemberExpr" and n["member"] in ("first", "second") and n.get("owner") == "std::pair" and not n.get("arrow"):
             pv = self.rval(kids(n)[0], fr)
             if isinstance(pv, tuple) and pv[0] == "valtuple" and len(pv[1]) == 2:
@@ -326,6 +353,7 @@ class Interp:
             st.deleted[v] = st.deleted.get(v, 0) + 1
             if st.count.get(v, 0) != 0:
                 raise Bad("delete-live", "object deleted while its reference count is %d" % st.count[v])
+            st.object_destroyed(v)
             return None
         if k in CONSTRUCTS and n["callee"].get("record") == CP:
             st.ntemp += 1
@@ -371,6 +399,9 @@ class Interp:
         if lv[0] == "ptr":
             if isinstance(v, tuple) or isinstance(v, bool) or v is None:
                 raise self.und(fr, n, "value stored into the pointer field not understood")
+            if lv[1] in self.st.dead_handles:
+                raise Bad("use-after-release", "the argument handle is written after the release of the old object, which owns that "
+                          "handle and has just been destroyed (h = std::move(h->next))")
             self.st.h[lv[1]] = NULL if v == 0 else v
         elif lv[0] == "var":
             lv[2].env[lv[1]] = v
@@ -791,6 +822,9 @@ def scenarios(fn):
             others = [("handle", NULL), ("handle", "A"), ("handle", "B")]
             if not is_ctor:
                 others.append(("self", None))
+            if fn.name == "operator=" and tp == "A":
+                # the argument is a handle held by the object this handle points to (list traversal: h = h->next)
+                others += [("owned", "B"), ("owned", NULL)]
         elif raw_param:
             others = [("raw", NULL), ("raw", "A")]
         elif fn.params and fn.params[0]["ty"] == "std::nullptr_t":
@@ -828,6 +862,13 @@ def run_scenario(tu, fn, sc, inj=None):
     if ok == "handle":
         st.h["other"] = ov
         st.alive_handles.add("other")
+        if ov != NULL:
+            pre_handles[ov] += 1
+        args = [("handle", "other")]
+    elif ok == "owned":
+        st.h["other"] = ov
+        st.alive_handles.add("other")
+        st.owned["other"] = tp
         if ov != NULL:
             pre_handles[ov] += 1
         args = [("handle", "other")]
